@@ -2701,6 +2701,236 @@ impl Ctx<'_> {
     }
 }
 
+
+// ------------------------------------------------------------------ sequential histories with TensorStore::clear
+//
+// `TensorStore::clear` (→ `SlabRouter::clear` → every slab's `clear`, the entity index included) is a
+// quiescent whole-store operation: no yield hook inside, nobody clears a store that is in use.  What
+// it must leave behind is a store that behaves like a NEW one - in particular an embedding slab whose
+// allocator (free list first, bump pointer otherwise) never hands one slot to two live ids afterwards.
+// Lean: Slab.lean (`ESlab`: index id ↦ slot, free list, bump pointer, dense cells; `sRun`),
+// SlabProps (`store_no_two_live_keys_share_a_slot`, `slab_get_is_the_map_of_the_concurrent_model`,
+// `clearKeepsFreeList_two_keys_share_a_slot_witness`).  Model command: `seq 0 <ops>`.
+#[derive(Clone, Copy, PartialEq, Eq, Debug)]
+enum SOp {
+    Do(Op),
+    Clear,
+}
+impl SOp {
+    fn show(&self) -> String {
+        match self {
+            SOp::Do(op) => op.show(),
+            SOp::Clear => "CLR".into(),
+        }
+    }
+}
+fn show_sops(ops: &[SOp]) -> String {
+    ops.iter().map(|o| o.show()).collect::<Vec<_>>().join(";")
+}
+fn parse_sops(s: &str) -> Option<Vec<SOp>> {
+    s.split(';')
+        .map(|t| if t == "CLR" { Some(SOp::Clear) } else { parse_op(t).filter(|o| matches!(o, Op::Put(..) | Op::Get(_) | Op::Del(_) | Op::Ex(_))).map(SOp::Do) })
+        .collect()
+}
+/// the history on a fresh real store, one call after the other
+fn run_seq(ops: &[SOp]) -> Vec<Res> {
+    let store = TensorStore::new();
+    ops.iter()
+        .map(|o| match o {
+            SOp::Do(op) => exec(&store, op),
+            SOp::Clear => {
+                store.clear();
+                Res::Ok
+            }
+        })
+        .collect()
+}
+/// THE SEQUENTIAL SPECIFICATION (a map key ↦ value; clear empties it), judged on the real outputs:
+/// the first operation whose result is not the specified one → (index, expected, class, what)
+fn seq_first_wrong(ops: &[SOp], res: &[Res]) -> Option<(usize, Res, &'static str, &'static str)> {
+    let mut m: BTreeMap<Key, Val> = BTreeMap::new();
+    for (i, (o, r)) in ops.iter().zip(res).enumerate() {
+        let want = match o {
+            SOp::Clear => {
+                m.clear();
+                Res::Ok
+            }
+            SOp::Do(Op::Put(k, v)) => {
+                m.insert(*k, *v);
+                Res::Ok
+            }
+            SOp::Do(Op::Get(k)) => m.get(k).map_or(Res::Nf, |v| Res::Found(*v)),
+            SOp::Do(Op::Ex(k)) => Res::Bool(m.contains_key(k)),
+            SOp::Do(Op::Del(k)) => if m.remove(k).is_some() { Res::Ok } else { Res::Nf },
+            SOp::Do(_) => continue,
+        };
+        if *r != want {
+            let (class, what) = match (o, r) {
+                (SOp::Do(Op::Get(k)), Res::Found(got)) => {
+                    // where does the value come from: was it (or its vector) ever put under THIS key?
+                    let own = ops[..i].iter().any(|p| matches!(p, SOp::Do(Op::Put(k2, v2)) if k2 == k && (v2 == got || (v2.vec == got.vec && got.vec != VecF::N))));
+                    let foreign = ops[..i].iter().any(|p| matches!(p, SOp::Do(Op::Put(k2, v2)) if k2 != k && (v2 == got || (v2.vec == got.vec && got.vec != VecF::N))));
+                    if !own && foreign {
+                        ("tensor_store.sequential.get/value_of_another_key", "in a sequential history (put / delete / clear / get, one call after the other on one store) a get returned a value - or the vector of a value - that was never put under the key it read: it was only ever put under ANOTHER key")
+                    } else if own {
+                        ("tensor_store.sequential.get/stale_value", "in a sequential history a get returned a value of its key that is not the last one put (it was overwritten, deleted or cleared since)")
+                    } else {
+                        ("tensor_store.sequential.get/value_never_written", "in a sequential history a get returned a value that no put of the history wrote under any key")
+                    }
+                }
+                (SOp::Do(Op::Get(_)), _) => ("tensor_store.sequential.get/present_key_not_found", "in a sequential history a get did not find a key whose last operation was a put"),
+                (SOp::Do(Op::Ex(_)), _) => ("tensor_store.sequential.exists/differs_from_the_map", "in a sequential history exists answered differently from the map key ↦ last value put (deleted / cleared = absent)"),
+                (SOp::Do(Op::Del(_)), _) => ("tensor_store.sequential.delete/differs_from_the_map", "in a sequential history delete answered differently from the map key ↦ last value put (Ok exactly for a present key)"),
+                _ => ("tensor_store.sequential.write/failed", "in a sequential history a put or clear did not return Ok"),
+            };
+            return Some((i, want, class, what));
+        }
+    }
+    None
+}
+
+impl Ctx<'_> {
+    /// one sequential history: correspondence with the model (`seq 0`), the map oracle on the real
+    /// outputs, shrinking of a failing history
+    fn seq_case(&mut self, stream: &str, ops: &[SOp]) {
+        let line = format!("seq 0 {}", show_sops(ops));
+        let res = run_seq(ops);
+        let found_after_clear = ops.iter().position(|o| *o == SOp::Clear).map_or(false, |c| res[c..].iter().any(|r| matches!(r, Res::Found(_))));
+        self.rep.case(stream, if found_after_clear { Some(&line) } else { None });
+        for o in ops {
+            self.rep.hit(&format!("seq_op:{}", match o { SOp::Clear => "clear", SOp::Do(op) => op.kind() }));
+        }
+        // shape of the history: a slot freed (delete / overwrite without a vector) before a clear, and
+        // at least two slab puts after that clear
+        let mut freed = false;
+        let mut live: BTreeSet<Key> = BTreeSet::new();
+        let mut armed = false;
+        let mut puts_after = 0;
+        for o in ops {
+            match o {
+                SOp::Do(Op::Put(k, v)) if k.cls() == Cls::E => {
+                    if matches!(v.vec, VecF::Good(_)) {
+                        if armed && live.insert(*k) { puts_after += 1; } else { live.insert(*k); }
+                    } else if live.remove(k) {
+                        freed = true;
+                    }
+                }
+                SOp::Do(Op::Del(k)) => if live.remove(k) { freed = true; },
+                SOp::Clear => {
+                    if freed { armed = true; puts_after = 0; }
+                    live.clear();
+                }
+                _ => {}
+            }
+        }
+        if armed { self.rep.hit("seq_shape:slot_freed_then_clear"); }
+        if armed && puts_after >= 2 { self.rep.hit("seq_shape:slot_freed_then_clear_then_two_or_more_new_slab_puts"); }
+        let imp = res.iter().map(|r| r.show()).collect::<Vec<_>>().join(",");
+        let ans = self.model.ask(&line);
+        let model_res = ans.strip_prefix("res ").and_then(|a| a.split(" | ").next()).unwrap_or(&ans).to_string();
+        self.rep.compare(stream, || json!({"line": line, "model_answer": ans}), &imp, &model_res);
+        match seq_first_wrong(ops, &res) {
+            None => self.rep.hit("oracle:sequential_history_is_the_map_of_last_values_put"),
+            Some((_, _, class, what)) => {
+                let mut fails = |c: &[SOp]| seq_first_wrong(c, &run_seq(c)).map_or(false, |(_, _, cl, _)| cl == class);
+                let small = shrink_list(ops, &mut fails);
+                let r2 = run_seq(&small);
+                let (at, want, _, _) = seq_first_wrong(&small, &r2).expect("shrunk history fails");
+                self.violation(class, what, json!({
+                    "line": format!("seq 0 {}", show_sops(&small)),
+                    "history": small.iter().zip(&r2).map(|(o, r)| format!("{} -> {}", o.show(), r.show())).collect::<Vec<_>>(),
+                    "first_wrong_result": {"index": at, "op": small[at].show(), "got": r2[at].show(), "expected": want.show()},
+                    "original": show_sops(ops),
+                }));
+            }
+        }
+    }
+
+    fn seq_clear_directed(&mut self) {
+        let e = |i: u32| Key::new(Cls::E, i);
+        let g = |t: u32| Val { tag: t, vec: VecF::Good(t) };
+        let n = |t: u32| Val { tag: t, vec: VecF::N };
+        let b = |t: u32| Val { tag: t, vec: VecF::Bad(t) };
+        let p = |k: Key, v: Val| SOp::Do(Op::Put(k, v));
+        let get = |k: Key| SOp::Do(Op::Get(k));
+        let d = |k: Key| SOp::Do(Op::Del(k));
+        let x = |k: Key| SOp::Do(Op::Ex(k));
+        let c = SOp::Clear;
+        // the witness history of the Lean model first (`clearKeepsFreeList_two_keys_share_a_slot_witness`)
+        let w = self.model.ask("witness clear_keeps_free_list");
+        match parse_sops(&w) {
+            Some(ops) => self.seq_case("seq.clear.witness", &ops),
+            None => self.rep.disagree("seq.clear.witness", json!({"line": "witness clear_keeps_free_list"}), "a history", &w),
+        }
+        let cases: Vec<Vec<SOp>> = vec![
+            // the shortest history and its neighbours
+            vec![p(e(1), g(1)), d(e(1)), c, p(e(2), g(2)), p(e(3), g(3)), get(e(2)), get(e(3)), get(e(1)), x(e(1))],
+            vec![p(e(1), g(1)), c, p(e(2), g(2)), p(e(3), g(3)), get(e(2)), get(e(3)), get(e(1))],
+            vec![p(e(1), g(1)), d(e(1)), p(e(2), g(2)), p(e(3), g(3)), get(e(2)), get(e(3)), get(e(1))],
+            vec![p(e(1), g(1)), d(e(1)), c, p(e(2), g(2)), get(e(2)), p(e(3), g(3)), get(e(2)), p(e(3), g(4)), get(e(2)), get(e(3))],
+            // the slot is freed by an overwrite without / with a wrong-dimension vector
+            vec![p(e(1), g(1)), p(e(1), n(2)), c, p(e(2), g(3)), p(e(3), g(4)), get(e(2)), get(e(3)), get(e(1))],
+            vec![p(e(1), g(1)), p(e(1), b(2)), c, p(e(2), g(3)), p(e(3), g(4)), get(e(2)), get(e(3))],
+            // the stale free slot is at offset 1: it takes three puts after the clear
+            vec![p(e(1), g(1)), p(e(2), g(2)), d(e(2)), c, p(e(3), g(3)), p(e(4), g(4)), p(e(5), g(5)), get(e(3)), get(e(4)), get(e(5))],
+            // two freed slots, the same keys again after the clear
+            vec![p(e(1), g(1)), p(e(2), g(2)), d(e(1)), d(e(2)), c, p(e(1), g(3)), p(e(2), g(4)), p(e(3), g(5)), get(e(1)), get(e(2)), get(e(3))],
+            // clear twice, clear of an empty store, delete of a cleared key
+            vec![c, p(e(1), g(1)), d(e(1)), c, c, d(e(1)), x(e(1)), p(e(1), g(2)), p(e(2), g(3)), get(e(1)), get(e(2))],
+            // every class through a clear
+            vec![p(Key::new(Cls::P, 1), g(1)), p(Key::new(Cls::G, 1), n(2)), p(Key::new(Cls::T, 1), n(3)), p(Key::new(Cls::C, 1), n(4)), p(e(1), g(5)), c,
+                 get(Key::new(Cls::P, 1)), get(Key::new(Cls::G, 1)), get(Key::new(Cls::T, 1)), get(Key::new(Cls::C, 1)), get(e(1)), x(e(1)), d(e(1)), p(e(1), g(6)), get(e(1))],
+        ];
+        for ops in &cases {
+            self.seq_case("seq.clear.directed", ops);
+        }
+    }
+
+    /// random histories shaped around a clear: writes and deletes of a few `emb:` keys (all values
+    /// distinct), a clear, at least two new slab puts, reads of every key
+    fn seq_clear_random(&mut self, rng: &mut Rng, cases: u64) {
+        for _ in 0..cases {
+            let nkeys = 2 + rng.below(4) as u32;
+            let mut next = 0u32;
+            let mut ops: Vec<SOp> = Vec::new();
+            let key = |r: &mut Rng| if r.chance(1, 10) { Key::new(*r.pick(&[Cls::P, Cls::C, Cls::G]), 1) } else { Key::new(Cls::E, 1 + r.below(u64::from(nkeys)) as u32) };
+            let phases = 1 + rng.below(3);
+            for ph in 0..=phases {
+                let len = 2 + rng.below(8);
+                for _ in 0..len {
+                    let k = key(rng);
+                    let o = match rng.below(20) {
+                        0..=9 => {
+                            next += 1;
+                            let vec = match rng.below(12) { 0 => VecF::N, 1 => VecF::Bad(next), _ => VecF::Good(next) };
+                            Op::Put(k, Val { tag: next, vec })
+                        }
+                        10..=14 => Op::Del(k),
+                        15..=18 => Op::Get(k),
+                        _ => Op::Ex(k),
+                    };
+                    ops.push(SOp::Do(o));
+                }
+                if ph < phases {
+                    ops.push(SOp::Clear);
+                    // the puts the shape needs: new vectors under (mostly) other keys
+                    for _ in 0..(2 + rng.below(3)) {
+                        next += 1;
+                        ops.push(SOp::Do(Op::Put(Key::new(Cls::E, 1 + rng.below(u64::from(nkeys) + 2) as u32), Val { tag: next, vec: VecF::Good(next) })));
+                    }
+                }
+            }
+            let mut ks: Vec<Key> = ops.iter().filter_map(|o| match o { SOp::Do(op) => op.key(), SOp::Clear => None }).collect();
+            ks.sort();
+            ks.dedup();
+            for k in ks {
+                ops.push(SOp::Do(Op::Get(k)));
+            }
+            self.seq_case("seq.clear.random", &ops);
+        }
+    }
+}
+
 // ------------------------------------------------------------------ main
 
 fn main() {
@@ -2732,6 +2962,14 @@ fn main() {
             let mut ctx = Ctx { rep: &mut rep, model: &mut model, viol_count: BTreeMap::new(), budget_hits: 0, stalls: 0, exclusive_emb: false, real_mutex: false, variant: 0, scan_observed: 0, crash_at: None, cur_wal: None, twin_differs: None, twin_history_differs: false, twin_always: false, index_steps: false, ring_steps: false, ring: false, coll: Vec::new(), coll_observed: 0 };
             ctx.stress_ring(loops, readers);
             println!("stress cache_get loops={loops} readers={readers}: gets that returned a value of another key: {}", ctx.viol_count.get(CLASS_VALUE_OF_ANOTHER_KEY).copied().unwrap_or(0));
+        } else if f.len() == 3 && f[0] == "seq" {
+            // `seq 0 <ops>`: a sequential history with `TensorStore::clear`
+            if let Some(ops) = parse_sops(f[2]) {
+                let mut ctx = Ctx { rep: &mut rep, model: &mut model, viol_count: BTreeMap::new(), budget_hits: 0, stalls: 0, exclusive_emb: false, real_mutex: false, variant: 0, scan_observed: 0, crash_at: None, cur_wal: None, twin_differs: None, twin_history_differs: false, twin_always: false, index_steps: false, ring_steps: false, ring: false, coll: Vec::new(), coll_observed: 0 };
+                ctx.seq_case("replay", &ops);
+                let res = run_seq(&ops);
+                println!("real history: {}", ops.iter().zip(&res).map(|(o, r)| format!("{} -> {}", o.show(), r.show())).collect::<Vec<_>>().join("; "));
+            }
         } else if f.len() == 5 && (f[0] == "runr" || f[0] == "runrf") {
             // `runr|runrf <wal> <collisions> <programs> <schedule>`: the cache ring as it is
             if let Some(progs) = parse_progs(f[3]) {
@@ -2763,6 +3001,15 @@ fn main() {
 
     let scale: u64 = if args.thorough { 12 } else { 1 };
     let mut ctx = Ctx { rep: &mut rep, model: &mut model, viol_count: BTreeMap::new(), budget_hits: 0, stalls: 0, exclusive_emb: false, real_mutex: false, variant: 0, scan_observed: 0, crash_at: None, cur_wal: None, twin_differs: None, twin_history_differs: false, twin_always: false, index_steps: false, ring_steps: false, ring: false, coll: Vec::new(), coll_observed: 0 };
+
+    // ---- BEFORE EVERYTHING ELSE (sequential, cheap): histories with `TensorStore::clear`.  Directed
+    //      cases (the witness history of the Lean model and its neighbours), then random histories
+    //      shaped around a clear.
+    {
+        ctx.seq_clear_directed();
+        let mut r = root.fork("seq.clear.random");
+        ctx.seq_clear_random(&mut r, 250 * scale);
+    }
 
     // ---- FIRST OF ALL: the cache ring as it is.  `CacheRing` finds a key through an index from the
     //      64-bit FxHash OF THE KEY to a slot number, reads the slot in a second lock section, and
